@@ -21,6 +21,7 @@ import Nutree.Properties.C01
 import Nutree.Lemmas.EffectErase
 import Nutree.Lemmas.EffectData
 import Nutree.Lemmas.EffectInsert
+import Nutree.Lemmas.AddRemove
 namespace Nutree.C04
 open Nutree T Flt
 
@@ -540,5 +541,26 @@ example : ∀ b ∈ [(Before.none, [2, 3, 6]), (.bTrue, [6, 2, 3]), (.idx 1, [2,
 example (t' : Tree) (hr : exTree.addData 6 1 (exAtom 6 "E") (.idx (-1)) none none = .ok t') :=
   addData_position exTree t' 6 1 _ _ none none _ rfl hr
 example := modT_effect exTree.root _ 1 (fun l => l.reverse) exTree_wf.ids rfl
+
+/-! ### an algebraic law: remove undoes add -/
+
+/-- **`remove()` undoes `add_child()`.**  In a well-formed state: adding a new leaf — below any parent, at any position
+(`before` = None / True / False / index / sibling), with an explicit, a calculated or the default data id, with or without
+kind — and then removing that leaf again gives back every child list (the whole nested structure with all node records) and
+both registries (`_node_by_id` keys in order, `_nodes_by_data_id` with its keys and clone lists in order) exactly as they
+were: the addition had no effect beyond the new leaf, and the removal none beyond taking it out.  (Not compared: the flag
+that distinguishes `_children == []` from `None` on the system root, which is not observable.) -/
+theorem add_then_remove_restores (t t' : Tree) (next parent : NodeId) (a : Atom) (before : Before)
+    (did? : Option DataId) (kind : Option String)
+    (h : WF t) (hf : C01.Fresh t next) (hr : t.addData next parent a before did? kind = .ok t') :
+    (t'.removeOne next).root = t.root ∧ (t'.removeOne next).byId = t.byId ∧
+    (t'.removeOne next).byData = t.byData ∧ (t'.removeOne next).typed = t.typed ∧ (t'.removeOne next).hook = t.hook :=
+  removeOne_added_leaf t t' next parent a before did? kind h hf hr
+
+/-- non-vacuity: the example tree of this file, a leaf added before the first child of node 1 and removed again. -/
+example : ∃ t', exTree.addData 100 1 { obj := 77, eqc := 77, hid := .int 77, truthy := true, isStr := true, name := "new" } .bTrue none none = .ok t' ∧
+    (t'.removeOne 100).root = exTree.root := by
+  refine ⟨_, rfl, ?_⟩
+  decide
 
 end Nutree.C04
